@@ -57,7 +57,9 @@ def build_shim(info):
 def build_all():
     plain = B.build("plain")
     shim = build_shim(plain)
-    asan = B.build("asan", extra_cflags=["-include", os.path.join(HERE, "vf_alloc.h")], tag="c13-alloc")
+    hdr = os.path.join(HERE, "vf_alloc.h")
+    asan = B.build("asan", extra_cflags=["-include", hdr],
+                   tag="c13-alloc-" + hashlib.sha256(open(hdr, "rb").read()).hexdigest()[:12])
     drv = core.build_model_driver("C13", "ExtractC13.v", os.path.join(HERE, "driver.ml"))
     return plain, shim, asan, drv
 
@@ -216,7 +218,7 @@ def gen_cases(ctx, plain, root, seed):
                 "out.sqfs", "file", None, packer=True, packdir=True, relative=False, aux=(pf3, xf), srcdir=None)
     cbig.classes = ("write", "trunc")
     cbig.kinds = ["enospc"]
-    cbig.alloc_limit = 40
+    cbig.alloc_limit = 40 if ctx.tier == "quick" else 600
     cases.append(cbig)
     # T1 / T2: tar2sqfs
     t0 = os.path.join(root, "in0.tar")
@@ -1084,6 +1086,10 @@ def io_sweep(ctx, case, shim, drv, root, kinds_for, stats, only=None):
     return base, sb, counts, ncomp
 
 
+ALLOC_HELPERS = ("alloc_flex", "alloc_array", "array_init", "array_init_copy", "array_append", "array_set_capacity",
+                 "hash_table_create", "hash_table_init", "mknode", "str_table_init")
+
+
 def alloc_sweep(ctx, case, asan, root, stats, limit=None, only=None, func=None):
     tools = asan["tools"]
     envp = {"ASAN_OPTIONS": "detect_leaks=0:abort_on_error=0:allocator_may_return_null=1",
@@ -1099,14 +1105,27 @@ def alloc_sweep(ctx, case, asan, root, stats, limit=None, only=None, func=None):
         res = run_case(case, rd, dict(envp, VF_ALLOC_K=str(k), VF_ALLOC_LOG=al), tools_override=tools, timeout=40)
         site = None
         count = None
+        caller_off = None
         if os.path.exists(al):
             for l in open(al).read().split("\n"):
                 p = l.split(" ")
                 if p[0] == "site" and len(p) >= 5:
                     site = (p[1], p[2], p[3])
+                elif p[0] == "caller" and len(p) >= 2:
+                    caller_off = int(p[1])
                 elif p[0] == "count" and len(p) >= 2:
                     count = int(p[1])
             os.unlink(al)
+        if site and site[1] in ALLOC_HELPERS and caller_off and caller_off > 0:
+            # the allocation sits in a generic helper: name the function that called the helper
+            try:
+                a2l = subprocess.run(["addr2line", "-f", "-e", res["argv"][0], hex(caller_off - 1)],
+                                     stdout=subprocess.PIPE, stderr=subprocess.DEVNULL, text=True, timeout=20)
+                fn = a2l.stdout.split("\n")[0].strip()
+                if fn and fn != "??":
+                    site = (site[0], site[1] + "@" + fn, site[2])
+            except (OSError, subprocess.TimeoutExpired):
+                pass
         res["alloc_site"] = site
         res["alloc_count"] = count
         if k:
